@@ -356,7 +356,13 @@ where
             >> (State::BITS - Word::BITS))
             .as_();
         if upper_word == point_word {
-            self.bulk.write(Word::zero())?;
+            // A single word doesn't pin down the interval `[lower, lower + range)`. We therefore
+            // append zeros for all remaining words of `State`: the emitted words then identify
+            // exactly `point_word << (State::BITS - Word::BITS)`, which lies within the interval,
+            // no matter which words follow (a single zero word if `State` holds two `Word`s).
+            for _ in 1..State::BITS / Word::BITS {
+                self.bulk.write(Word::zero())?;
+            }
         }
 
         Ok(())
@@ -375,7 +381,11 @@ where
         let upper_word = (self.state.lower.wrapping_add(&self.state.range.get())
             >> (State::BITS - Word::BITS))
             .as_();
-        let mut count = if upper_word == point_word { 2 } else { 1 };
+        let mut count = if upper_word == point_word {
+            State::BITS / Word::BITS
+        } else {
+            1
+        };
 
         if let EncoderSituation::Inverted(num_inverted, _) = self.situation {
             count += num_inverted.get();
